@@ -24,6 +24,8 @@ LEAF = [
     ("bp128", "varintBP128.c", ["varintBP128BitsNeeded32", "varintBP128BitsNeeded64"]),
     ("pfor", "varintPFOR.c", ["varintPFORCalculateMarker"]),
     ("adaptive", "varintAdaptive.c", ["varintAdaptiveMaxSize", "size_mul_overflow"]),
+    ("float", "varintFloat.c", ["truncateMantissa", "expandMantissa"]),
+    ("bitmap", "varintBitmap.c", ["bitmapSet_", "bitmapClear_", "bitmapContains_"]),
 ]
 
 
